@@ -165,6 +165,25 @@ Commit(b) ==
         ELSE storage' = ApplyWrite(storage, p) /\ UNCHANGED rdata
   /\ UNCHANGED <<topIn, pending, delayQ, pipe, post, lastRow, topOut, reqs, loc, rsps, wasHit, cfg>>
 
+\* Exit immediately followed by Commit, as one step.  Commits of one bank happen in the order of its post-pipeline
+\* buffer and commits of different banks touch disjoint bytes, so committing at the moment of the exit loses no
+\* behaviour as far as responses and the final store are concerned; trace validation uses it to cut the search.
+ExitAndCommit(b, k) ==
+  /\ k \in 1..Len(pipe[b])
+  /\ \A j \in 1..(k - 1) : pipe[b][j].lane # pipe[b][k].lane
+  /\ k = 1 \/ "LaneOvertake" \in cfg.dev
+  /\ Len(post[b]) < PostCap
+  /\ \A j \in 1..Len(post[b]) : post[b][j] \in done
+  /\ LET id == pipe[b][k].id
+         p  == reqs[id] IN
+     /\ post' = [post EXCEPT ![b] = Append(@, id)]
+     /\ done' = done \cup {id}
+     /\ IF p.k = "r"
+        THEN rdata' = rdata @@ (id :> ReadOf(storage, p)) /\ UNCHANGED storage
+        ELSE storage' = ApplyWrite(storage, p) /\ UNCHANGED rdata
+  /\ pipe' = [pipe EXCEPT ![b] = RemoveAt(@, k)]
+  /\ UNCHANGED <<topIn, pending, delayQ, lastRow, topOut, reqs, loc, rsps, wasHit, cfg>>
+
 SendRsp(b) ==
   /\ post[b] # <<>> /\ Head(post[b]) \in done
   /\ Len(topOut) < PortCap
